@@ -91,12 +91,25 @@ fn dispatch(dir: &str, max: usize) {
     let mut files: Vec<_> = std::fs::read_dir(dir).unwrap().filter_map(|e| e.ok()).map(|e| e.path()).filter(|p| p.extension().map(|x| x == "bin").unwrap_or(false)).collect();
     files.sort();
     let (mut ok, mut errs, mut nodes) = (0, 0, 0usize);
+    let mut dbg_trips = 0usize;
+    altrios_verif::panics::install_printing_hook();
     for f in files.iter().take(max) {
         let fx: Fixture = bincode::deserialize(&std::fs::read(f).unwrap()).unwrap();
         let links = fixture_links(&fx);
         let sims = fixture_sims(&fx);
         nodes += fx.nets.iter().map(|n| n.val.len()).sum::<usize>();
-        match run_dispatch(&links, &sims, fx.nets.clone(), false, false) {
+        // the crate's own debug_assert!s are active in unoptimised builds (Miri); one of them compares two float
+        // sums exactly and trips on sub-micrometre rounding on correct plans: recorded, not judged (DESIGN 8.1)
+        let outcome = altrios_verif::panics::guard(std::panic::AssertUnwindSafe(|| run_dispatch(&links, &sims, fx.nets.clone(), false, false)));
+        let outcome = match outcome {
+            Ok(r) => r,
+            Err(p) if altrios_verif::panics::is_debug_assert_site(&p) => {
+                dbg_trips += 1;
+                continue;
+            }
+            Err(p) => panic!("run_dispatch panicked: {} at {}", p.message, p.location),
+        };
+        match outcome {
             Ok(plan) => {
                 ok += 1;
                 assert_eq!(plan.len(), sims.len(), "a train was dropped");
@@ -118,8 +131,8 @@ fn dispatch(dir: &str, max: usize) {
         }
     }
     let hits = altrios_core::verif_hooks::take_site_hits();
-    println!("DISPATCH-WORKLOAD fixtures={} ok={ok} err={errs} est_nodes={nodes} unsafe_block_executions={}", files.len().min(max), serde_json::to_string(&hits).unwrap());
-    if ok + errs == 0 {
+    println!("DISPATCH-WORKLOAD fixtures={} ok={ok} err={errs} crate_debug_assert_trips={dbg_trips} est_nodes={nodes} unsafe_block_executions={}", files.len().min(max), serde_json::to_string(&hits).unwrap());
+    if ok + errs + dbg_trips == 0 {
         std::process::exit(3);
     }
 }
